@@ -368,6 +368,37 @@ def run_matrix(rep):
             mx.call('ForAll', mgr.ForAll, [[v], body], {}, ok, (tv, t))
             mx.call('Exists', mgr.Exists, [[v, argterm(mgr, env, tv, 2)],
                                            body], {}, ok, (tv, tv, t))
+    # binders must be symbols (the documented domain of the quantifiers)
+    pb = argterm(mgr, env, BOOL)
+    xi = argterm(mgr, env, INT)
+    for nonsym in (mgr.Int(1), mgr.Plus(xi, mgr.Int(1)), mgr.TRUE(),
+                   mgr.Not(pb), mgr.GT(xi, mgr.Int(0)), mgr.BV(1, 4)):
+        if not mine():
+            continue
+        for q in ('ForAll', 'Exists'):
+            mx.call(q, getattr(mgr, q), [[nonsym], pb], {}, BAD,
+                    ('binder-is-not-a-symbol',))
+            mx.call(q, getattr(mgr, q), [[xi, nonsym], pb], {}, BAD,
+                    ('binder-is-not-a-symbol', 2))
+    # bit-vector sorts have a positive width
+    for w in (0, -1, -3):
+        if not mine():
+            continue
+        for what, fn in (
+                ('BVType', lambda w=w: mgr.Symbol('c03_w%d' % w,
+                                                  T.BVType(w))),
+                ('BV', lambda w=w: mgr.BV(0, w)),
+                ('tm.BVType', lambda w=w: mgr.Symbol(
+                    'c03_tw%d' % w, env.type_manager.BVType(w)))):
+            rep.count('matrix_cases')
+            try:
+                r = fn()
+                rep.violation('C03/accepted-ill-typed/bit-vector-width',
+                              '%s with width %d returned %s : %s' % (
+                                  what, w, r, r.get_type()),
+                              {'what': what, 'width': w})
+            except Exception:
+                rep.count('matrix_rejections')
     fsigs = [(INT, (INT,)), (BOOL, (BOOL, BV(4))), (BV(8), (A_II, REAL)),
              (U('S'), (U('S'), INT, STRING))]
     for ret, ps in fsigs:
@@ -459,7 +490,16 @@ def run_mixed(rep):
             stage('cnf', lambda: cnf(f, env))
             stage('ackermann',
                   lambda: Ackermannizer(env).do_ackermannization(f))
-        stage('times_distributor', lambda: TimesDistributor(env).walk(f))
+        # (distributing products over sums is exponential in their nesting
+        # by definition: formulas with many of both are left out - one of
+        # them took 28 GB in a thorough run)
+        subs_ = list(B.subterms(b))
+        nt_ = sum(1 for x in subs_ if x[0] == 'times')
+        np_ = sum(1 for x in subs_ if x[0] in ('plus', 'minus'))
+        if nt_ * np_ <= 12:
+            stage('times_distributor', lambda: TimesDistributor(env).walk(f))
+        else:
+            rep.count('times_distributor_skipped_large')
         txt = stage('to_smtlib', lambda: f.to_smtlib(daggify=(j % 2 == 0)))
         if txt is not None:
             def parse():
